@@ -584,8 +584,8 @@ variable {Obj : Type}
 
 /-- the operations that only READ extension contents or rearrange headers -/
 def XOp.isRead : XOp Obj → Bool
-  | .content .. | .size .. | .total .. | .del .. | .share .. | .copy .. | .fromHeader .. | .mkImg .. | .setOff ..
-  | .saveHdr .. | .saveImg .. => true
+  | .content .. | .size .. | .total .. | .del .. | .share .. | .copy .. | .byteswap .. | .fromHeader .. | .mkImg ..
+  | .setOff .. | .saveHdr .. | .saveImg .. => true
   | _ => false
 
 theorem step_read_shown (m : Endian) (w : World Obj) (op : XOp Obj) (hr : XOp.isRead op = true) (k : Nat) :
@@ -627,6 +627,9 @@ theorem step_read_shown (m : Endian) (w : World Obj) (op : XOp Obj) (hr : XOp.is
     · split <;> rfl
     · rfl
   | copy h =>
+    simp only [World.step]
+    cases w.hdrs[h]? <;> rfl
+  | byteswap h target =>
     simp only [World.step]
     cases w.hdrs[h]? <;> rfl
   | fromHeader h cls fmt single =>
@@ -881,7 +884,8 @@ theorem conversion_table_ok :
     (∀ s ∈ Nb.Gen.C11.State.headerClasses, ∀ d ∈ Nb.Gen.C11.State.headerClasses,
       Nb.Gen.C11.State.carriesExt.contains (s.1, d.1) = true) ∧
     (Nb.Gen.C11.State.headerClasses.map (·.1)).Nodup ∧
-    (∀ c ∈ Nb.Gen.C11.State.headerClasses, c.2.1 = 1 ∨ c.2.1 = 2) := by
+    (∀ c ∈ Nb.Gen.C11.State.headerClasses, c.2.1 = 1 ∨ c.2.1 = 2) ∧
+    (∀ c ∈ Nb.Gen.C11.State.headerClasses, Nb.Gen.C11.State.byteswapCarries.contains c.1 = true) := by
   decide
 
 /-- `copy`, `from_header`, and making an image from a header, between ANY two NIfTI header classes: the new header
@@ -1009,5 +1013,45 @@ example : ∃ n, convert .le ⟨"Nifti1Header", nifti1, true, .be, 0, [0], false
 example : ((World.run .le ⟨[], [⟨"Nifti1Header", nifti1, true, .le, 0, [], false⟩]⟩
     [.newObj 0 0 ⟨id, id⟩ 6 [104, 105], .saveHdr 0, .edit 0 0 (fun o => o ++ [1, 2, 3, 4, 5, 6, 7]), .saveHdr 0]).1.hdrs.map (·.req))
     = [368] := rfl
+
+
+/-- `hdr.as_byteswapped(None | '<' | '>')` for every NIfTI header class (override table REGENERATED from the AST of
+    `Nifti1Header.as_byteswapped`; repaired logic, fix 81fd2b72): the result is a new header of the same class with the
+    byte order asked for (`None`: always the OTHER order), the same field values, and a NEW list referencing the SAME
+    extension objects in the same order — whether the order changes or not; no extension object is touched.  Together
+    with `conversion_carries_extensions` (image made from the swapped header), `lists_independent` and
+    `history_save_load` this is the route "save the other byte order through a byte-swapped header". -/
+theorem byteswap_carries_extensions {Obj : Type} (m : Endian) (w : World Obj) (h : Nat) (hd : XHdr)
+    (target : Option Endian) (hh : w.hdrs[h]? = some hd)
+    (hs : hd.cls ∈ Nb.Gen.C11.State.headerClasses.map (·.1)) :
+    (w.step m (.byteswap h target)).1.hdrs =
+        w.hdrs ++ [{ hd with endian := swapTarget m hd.endian target, isImg := false }] ∧
+    (w.step m (.byteswap h target)).1.heap = w.heap ∧
+    (w.step m (.byteswap h target)).1.shownExts hd.refs = w.shownExts hd.refs ∧
+    swapTarget m hd.endian none ≠ hd.endian ∧ (∀ e, swapTarget m hd.endian (some e) = e) := by
+  have hcar : Nb.Gen.C11.State.byteswapCarries.contains hd.cls = true := by
+    obtain ⟨c, hc1, hc2⟩ := List.mem_map.mp hs
+    have := conversion_table_ok.2.2.2 c hc1
+    rw [hc2] at this
+    exact this
+  have hstep : (w.step m (.byteswap h target)).1 =
+      { w with hdrs := w.hdrs ++ [{ hd with endian := swapTarget m hd.endian target, isImg := false }] } := by
+    simp only [World.step, hh, hcar, or_true, if_true]
+  rw [hstep]
+  refine ⟨rfl, rfl, rfl, ?_, fun e => rfl⟩
+  unfold swapTarget
+  cases m <;> cases hd.endian <;> decide
+
+/-- the pre-repair `Nifti1Header` had no override: `WrapStruct.as_byteswapped` built the other-order header from the
+    bytes alone.  With an EMPTY override table the model drops the list exactly when the order changes. -/
+theorem byteswap_orig_counterexample :
+    (if (swapTarget .le .le none = .le ∨ ([] : List String).contains "Nifti1Header" = true) then [0, 1] else ([] : List Nat)) = [] ∧
+    (if (swapTarget .le .le (some .le) = .le ∨ ([] : List String).contains "Nifti1Header" = true) then [0, 1] else ([] : List Nat)) = [0, 1] := by
+  decide
+
+example : (World.run .le exWorld exOps).1.hdrs[0]? = some ⟨"Nifti1Header", nifti1, true, .le, 0, [0], true⟩ ∧
+    "Nifti1Header" ∈ Nb.Gen.C11.State.headerClasses.map (·.1) := ⟨rfl, by decide⟩
+example : ((World.run .le exWorld (exOps ++ [.byteswap 0 none])).1.hdrs.map (fun x => (x.endian, x.refs, x.isImg))) =
+    [(.le, [0], true), (.be, [0], false)] := rfl
 
 end Nb.C11
